@@ -42,6 +42,19 @@ def generate(src):
     need(isinstance(un_map, list) and all(isinstance(k, str) and isinstance(v, str) and len(k) == 1 and len(v) == 1 for k, v in un_map)
          and len({k for k, _ in un_map}) == len(un_map), "_UNESCAPE_MAP is not a dict literal of distinct single characters")
     un_pat = const_eval(module_assign(mod, "_UNESCAPE_PATTERN"))
+    # grammar sentinel: tried only at `sentinel_pos`, the end of the leading blank lines
+    guards = [n for n in ast.walk(tok) if isinstance(n, ast.If) and isinstance(n.test, ast.BoolOp) and isinstance(n.test.op, ast.And)
+              and len(n.test.values) == 2 and ast.unparse(n.test.values[0]) == "token_type == TokenType.GRAMMAR_SENTINEL"]
+    need(len(guards) == 1 and len(guards[0].body) == 1 and isinstance(guards[0].body[0], ast.Continue) and not guards[0].orelse,
+         "tokenize: exactly one `if token_type == TokenType.GRAMMAR_SENTINEL and <cond>: continue` expected")
+    sentinel_guard = ast.unparse(guards[0].test.values[1])
+    sp_assign = [n for n in ast.walk(tok) if isinstance(n, ast.Assign) and len(n.targets) == 1 and isinstance(n.targets[0], ast.Name)
+                 and n.targets[0].id == "sentinel_pos"]
+    need(len(sp_assign) <= 1, "tokenize: sentinel_pos assigned more than once")
+    sentinel_pos = ast.unparse(sp_assign[0].value) if sp_assign else ""
+    need(not any(isinstance(n, (ast.While, ast.For)) and any(m is sp_assign[0] for m in ast.walk(n)) for n in ast.walk(tok)) if sp_assign else True,
+         "tokenize: sentinel_pos assigned inside a loop")
+    lead_blank = const_eval(module_assign(mod, "_LEADING_BLANK_LINES")) if sp_assign else ""
     # lenient= default of tokenize, error codes raised
     codes = sorted({const_eval(c.args[3]) for c in ast.walk(mod)
                     if isinstance(c, ast.Call) and ast.unparse(c.func) == "LexerError" and len(c.args) == 4
@@ -57,5 +70,8 @@ def generate(src):
     out.append(f"Definition lexer_token_types : list (list N) := {coq_strlist(members)}.\n")
     out.append(f"Definition lexer_unescape_map : list (N * N) :=\n  {coq_list([f'({ord(k)}, {ord(v)})' for k, v in un_map])}.\n")
     out.append(f"Definition lexer_unescape_pattern : list N := {coq_str(un_pat)}.\n")
+    out.append(f"Definition lexer_sentinel_guard : list N := {coq_str(sentinel_guard)}.\n")
+    out.append(f"Definition lexer_sentinel_pos : list N := {coq_str(sentinel_pos)}.\n")
+    out.append(f"Definition lexer_leading_blank_pattern : list N := {coq_str(lead_blank)}.\n")
     out.append(f"Definition lexer_error_codes : list (list N) := {coq_strlist(codes)}.\n")
     return {"LexerGen.v": "".join(out)}
